@@ -433,6 +433,8 @@ class SymInterp(Interp):
         raise CannotEstablish("binary %s on %r, %r (line %s)" % (op, l, r, e.get("ln")))
 
     def default_method(self, recv, m, args, e):
+        if isinstance(recv, Variant) and recv.last in ("Ok", "Err") and m in ("is_ok", "is_err") and not args:
+            return (recv.last == "Ok") == (m == "is_ok")
         if self.method_resolver is not None and isinstance(recv, Variant):
             f = self.method_resolver(recv, m)
             if f is not None:
